@@ -33,6 +33,7 @@ REQUIRED_THEOREMS = [
     "walker_positions_generated", "walk_positions_checked",
     "issues_without_parameters_subset", "issues_with_parameters_extra",
     "issues_antitone_in_parameters", "parameters_do_not_change_totality",
+    "issues_depend_on_parameter_membership", "remove_one_parameter",
 ]
 TRUSTED = [
     "hand-written model lean/GlotaranModel/C20.lean of glotaran/model/item.py (iterate_names_and_labels, "
@@ -1334,6 +1335,21 @@ def run_case(ck, schema, scen_name, sc, muts, evaluate=False):
             ck.violation("parameters-change-other-issues",
                          f"get_issues() reports {lost} that get_issues(parameters) does not, and get_issues(parameters) adds "
                          f"{extra} (not a ParameterIssue of an absent label)", case)
+
+    # ---- only membership in the parameter set is observable (Lean: issues_depend_on_parameter_membership):
+    # the same labels declared in the reverse order give the same issues
+    if True in gots:
+        try:
+            rev = {g: list(reversed(e)) for g, e in reversed(list(copy.deepcopy(sc["params"]).items()))}
+            ps_rev = build_params(rev, removed)
+            if sorted(ps_rev.labels) == present:
+                ck.oracle_evals += 1
+                rr = real_issues(model, ps_rev)
+                if rr[0] != "ok" or rr[1] != gots[True]:
+                    ck.violation("parameter-order-changes-issues",
+                                 f"the same parameter labels declared in reverse order give {rr[1]} instead of {gots[True]}", case)
+        except Exception as e:  # noqa: BLE001 — a parameter specification that cannot be reversed is outside the relation
+            ck.count("reverse-params-skipped:" + type(e).__name__)
 
     # ---- parameter labels / generated parameters
     lines.append("params")
